@@ -15,10 +15,14 @@ Open Scope N_scope.
 Definition SyncHist_view (w : world) : option (N * N * N) :=
   option_map (fun h => (hs_bb (h_state h), hs_bst (h_state h), delegated (w_env w) A_hub)) (w_hub w).
 
+Lemma SyncHist_def_view w : SyncHist_view w =
+  option_map (fun h => (hs_bb (h_state h), hs_bst (h_state h), delegated (w_env w) A_hub)) (w_hub w).
+Proof. reflexivity. Qed.
+
 (** [ExitWorld.genesis_ops] (deploy, wire, alice bonds 1 000 000 for bSei, bob 2 000 000 for stSei over
     three validators), then validator 0 is slashed by 10 % *)
 Definition SyncHist_ex_ops : list op := genesis_ops ++ [OSlash 0 1 10 false].
-Definition SyncHist_ex_w : world := run_ops SyncHist_ex_ops (empty_world 100).
+Notation SyncHist_ex_w := (run_ops SyncHist_ex_ops (empty_world 100)) (only parsing).
 
 Definition SyncHist_ex_txs : list op :=
   [ OTx bob A_hub (WHub HCheckSlashing) [];
@@ -104,7 +108,7 @@ Proof.
              forall h', w_hub (fst (step SyncHist_ex_w o)) = Some h' ->
                         booked h' = delegated (w_env (fst (step SyncHist_ex_w o))) A_hub).
   { intros o Hp h' Hh'. pose proof (SyncHist_pricing_op_exact 100 SyncHist_ex_ops o h' Hf) as K.
-    cbv zeta in K. change (run_ops SyncHist_ex_ops (empty_world 100)) with SyncHist_ex_w in K. apply K; assumption. }
+    cbv zeta in K. apply K; assumption. }
   repeat (constructor; [apply K; vm_compute; reflexivity|]). constructor.
 Qed.
 
@@ -125,7 +129,7 @@ Proof.
   subst b.
   destruct (SyncHist_check_writes_off_unrecognised 100 SyncHist_ex_ops bob w' tr h Hf Hh E)
     as (h' & A & B & C & D1 & D2).
-  change (run_ops SyncHist_ex_ops (empty_world 100)) with SyncHist_ex_w in D2. rewrite Hb, Hs, Hd in D2. destruct (SyncHist_ex_synced _ D2) as [X Y].
+  cbv zeta in D2. rewrite Hb, Hs, Hd in D2. destruct (SyncHist_ex_synced _ D2) as [X Y].
   exists h, w', tr, h'. split; [exact Hh|]. split; [reflexivity|]. split; [exact A|].
   assert (Hbk : booked h = 3000000) by (unfold booked; rewrite Hb, Hs; reflexivity).
   assert (Hbk' : booked h' = 2900000) by (unfold booked; rewrite X, Y; reflexivity).
@@ -136,7 +140,7 @@ Qed.
     updater calls UpdateGlobalIndex; the dispatcher re-bonds 66 500 usei with BondRewards, whose check
     recognises the loss first: pools 966 666 / 1 933 334 + 66 500, delegated 2 966 500 *)
 Definition SyncHist_ex_ops2 : list op := SyncHist_ex_ops ++ [OAccrue 0 usei 100000; OAccrue 1 uusd 5000].
-Definition SyncHist_ex_w2 : world := run_ops SyncHist_ex_ops2 (empty_world 100).
+Notation SyncHist_ex_w2 := (run_ops SyncHist_ex_ops2 (empty_world 100)) (only parsing).
 Definition SyncHist_ex_tx2 : op := OTx updater A_hub (WHub (HUpdateGlobal 0)) [].
 
 Example SyncHist_ex_bond_rewards :
@@ -154,8 +158,56 @@ Proof.
   split; [exact Hf|]. split; [vm_compute; reflexivity|]. split; [vm_compute; reflexivity|].
   split; [vm_compute; tauto|]. split; [vm_compute; reflexivity|].
   split; [|split; vm_compute; reflexivity].
-  intros h' Hh'. pose proof (SyncHist_pricing_op_exact 100 SyncHist_ex_ops2 SyncHist_ex_tx2 h' Hf) as K.
-  cbv zeta in K. change (run_ops SyncHist_ex_ops2 (empty_world 100)) with SyncHist_ex_w2 in K. apply K; [vm_compute; reflexivity|exact Hh'].
+  assert (K : forall o, SyncHist_priced SyncHist_ex_w2 o = true ->
+             forall h', w_hub (fst (step SyncHist_ex_w2 o)) = Some h' ->
+                        booked h' = delegated (w_env (fst (step SyncHist_ex_w2 o))) A_hub).
+  { intros o Hp h' Hh'. exact (SyncHist_pricing_op_exact 100 SyncHist_ex_ops2 o h' Hf Hp Hh'). }
+  apply K. vm_compute. reflexivity.
+Qed.
+
+(** the hypotheses of [SyncHist_slash_then_check] are satisfiable: [genesis_ops] is fresh and in sync,
+    the slash and the CheckSlashing after it succeed *)
+Example SyncHist_ex_slash_then_check_nonvacuous :
+  SyncHist_fresh genesis_ops (empty_world 100) /\
+  SyncHist_ufold genesis_ops (empty_world 100) 0 = 0 /\
+  let w := fst (step (run_ops genesis_ops (empty_world 100)) (OSlash 0 1 10 false)) in
+  SyncHist_view w = Some (1000000, 2000000, 2900000) /\
+  fst (snd (step w (OTx bob A_hub (WHub HCheckSlashing) []))) = true.
+Proof. vm_compute. repeat split. Qed.
+
+(** [SyncHist_step_raise] is tight: on the un-slashed [world0] a Bond of 1000 raises the booked total by
+    exactly the payment; a CheckSlashing, an Unbond and a Convert do not raise it *)
+Example SyncHist_ex_raise :
+  let w := run_ops genesis_ops (empty_world 100) in
+  let o := OTx alice A_hub (WHub HBond) [(usei, 1000)] in
+  SyncHist_view w = Some (1000000, 2000000, 3000000) /\
+  SyncHist_view (fst (step w o)) = Some (1001000, 2000000, 3001000) /\
+  sumN (map SyncHist_pay (snd (snd (step w o)))) = 1000 /\
+  Forall (fun o' => sumN (map SyncHist_pay (snd (snd (step w o')))) = 0 /\ fst (snd (step w o')) = true)
+    [ OTx bob A_hub (WHub HCheckSlashing) [];
+      OTx alice A_bsei (WCw20 (CSend A_hub 1000 HkUnbond)) [];
+      OTx bob A_stsei (WCw20 (CSend A_hub 1000 HkConvert)) [] ].
+Proof.
+  cbv zeta. split; [vm_compute; reflexivity|]. split; [vm_compute; reflexivity|]. split; [vm_compute; reflexivity|].
+  repeat (constructor; [vm_compute; split; reflexivity|]). constructor.
+Qed.
+
+(** [SyncHist_tx_no_pricing_frame] / the "else" branch of [SyncHist_tx_gap] are not vacuous: on the
+    slashed world a bSei transfer and a validator removal (whose RedelegateProxy moves the hub's stake
+    from validator 2 to the others) succeed, execute no pricing message, and leave pools, delegated
+    total and the 100 000 of unrecognised loss as they were *)
+Example SyncHist_ex_no_pricing :
+  Forall (fun o =>
+    fst (snd (step SyncHist_ex_w o)) = true /\ SyncHist_priced SyncHist_ex_w o = false /\
+    SyncHist_view (fst (step SyncHist_ex_w o)) = Some (1000000, 2000000, 2900000) /\
+    SyncHist_ufold (SyncHist_ex_ops ++ [o]) (empty_world 100) 0 = 100000)
+    [ OTx alice A_bsei (WCw20 (CTransfer bob 10)) [];
+      OTx A_owner A_reg (WReg (GRemove 2)) [] ] /\
+  all_delegations (w_env (fst (step SyncHist_ex_w (OTx A_owner A_reg (WReg (GRemove 2)) [])))) A_hub
+    = [(0, 1450000); (1, 1450000)].
+Proof.
+  split; [|vm_compute; reflexivity].
+  repeat (constructor; [vm_compute; repeat split; reflexivity|]). constructor.
 Qed.
 
 (** ** 10. witnesses *)
@@ -168,7 +220,7 @@ Definition SyncHist_reinst_ops : list op :=
   [ OInstHub A_owner 30 100 (D / 200) D updater usei uusd;
     OTx A_owner A_hub (WHub (HConfig (Some A_disp) (Some A_reg) (Some A_bsei) (Some A_stsei)
                                      (Some A_airdrop) (Some A_reward) None)) [] ].
-Definition SyncHist_reinst_w : world := run_ops SyncHist_reinst_ops (empty_world 100).
+Notation SyncHist_reinst_w := (run_ops SyncHist_reinst_ops (empty_world 100)) (only parsing).
 
 Lemma SyncHist_reinst_surplus_witness :
   Forall SyncHist_usei_op SyncHist_reinst_ops /\
@@ -206,7 +258,7 @@ Definition SyncHist_rise_ops : list op :=
     OTx alice A_hub (WHub HBond) [(usei, 10000000000006)];
     OTx bob A_hub (WHub HBondSt) [(usei, 1)];
     OSlash 0 1 10000000000007 false ].
-Definition SyncHist_rise_w : world := run_ops SyncHist_rise_ops (empty_world 100).
+Notation SyncHist_rise_w := (run_ops SyncHist_rise_ops (empty_world 100)) (only parsing).
 
 Lemma SyncHist_st_rise_reachable :
   SyncHist_fresh SyncHist_rise_ops (empty_world 100) /\
